@@ -29,6 +29,15 @@ PROPS = {
                    "(interprocedural write effects, ignoring getter-internal refreshes and listed cache/scratch fields), unless a handler rolls the write "
                    "back; plus a guard-presence table: each invalid-input class named in the statement has its guard (entry point, exception type, tested "
                    "quantity), so that a deleted or hollowed-out guard is a violation."),
+    "C01": ("c01", "Wiring by name between cost functions and the Nexus graph, decided on tables reconstructed by constant propagation: the registry of every "
+                   "fit class x the constructor configuration of each entry gives (handle, formal parameters, wired node names, flags); the static Nexus "
+                   "graph of each fit class gives the node table. Rules: formals = wired names (D1), determinant node matches the quadratic form and "
+                   "chi2_probability (D2), pointwise twin carries the same effective flags (D3), append/strip symmetry (D4), axis constants (D5), "
+                   "invalidation callbacks are stored in fields that are read (D6), normalised axis is used (D8), implicit no-errors switch and exact "
+                   "diagonality test (Dsw)."),
+    "C03": ("c03", "Hidden-input invalidation of Nexus property nodes (for each public entry point of each fit class: fields written vs inputs of every "
+                   "observable-reachable property node vs nodes marked on every path, over the static graph reconstructed by constant propagation), required "
+                   "edges, did-fit / loaded-result coherence, re-selection of the cost node, freeze protocol bracket in do_fit, read-only getters."),
 }
 
 
